@@ -1,15 +1,95 @@
 """C12 — OpenID tokens go only to the right client and name the right user."""
+import base64
+import hashlib
 import itertools
 import json
 from . import common as c
 from .C04 import flat_wire, hx, ISSUER  # same wire syntax / issuer as C04
 
-CLIENTS = [("confidentialOne", "secret-one"), ("confidentialTwo", "secret-two"), ("publicOne", ""), ("publicTwo", "")]
-CLIENTS_ARG = ",".join("%s:%s" % (hx(a), hx(b)) for a, b in CLIENTS)
+CLIENTS = [("confidentialOne", "secret-one", 0), ("confidentialTwo", "secret-two", 0), ("publicOne", "", 0), ("publicTwo", "", 0),
+           ("confidentialAud", "secret-aud", 1), ("publicAud", "", 1)]
+CLIENTS_ARG = ",".join("%s:%s:%d" % (hx(a), hx(b), f) for a, b, f in CLIENTS)
 USER = "alice"
 NONCE = "nonce-987654"
 REDIRECT = "https://app.localhost/cb"
 SIXTEEN_H = 16 * 3600
+VERIFIER = "verifier-0123456789-abcdefghijklmnopqrstuvwxyz-ABCDEFG"
+S256_VERIFIER = base64.urlsafe_b64encode(hashlib.sha256(VERIFIER.encode()).digest()).decode().rstrip("=")
+# ---- authorization requests: every optional parameter the handler reads (value, ground truth)
+# audience -> CorsOriginAllowed for a client whose allowed domain is "localhost" (https and host = or under the domain)
+AUDIENCES = {None: None, "https://api.localhost": 1, "https://localhost": 1, "https://api.localhost/v1?x=1": 1,
+             "https://api.evil.example": 0, "http://api.localhost": 0, "https://evillocalhost": 0, "api.localhost": 0}
+# redirect_uri -> CanRedirectToURL
+REDIRECTS = {REDIRECT: 1, "https://app.evil.example/cb": 0, None: 0}
+SCOPES = ["openid", "openid email", "email openid profile", "openid  email", "email", "openidx", None]
+NONCES = [NONCE, None, "123456", "abc", "n" * 64, "has space&x=y"]
+STATES = ["xyz", None, "a b&c=d/\u00e9"]
+CHALLENGES = {"none": ("", ""), "S256": (S256_VERIFIER, "S256"), "implicit": (VERIFIER, ""), "plain": (VERIFIER, "plain"),
+              "S512": (VERIFIER, "S512"), "methodonly": ("", "S256")}
+AZ_CLIENTS = ["confidentialOne", "publicOne", "confidentialAud", "publicAud"]
+
+
+def oh(v):
+    """optional parameter -> harness field ('-' = absent)"""
+    return "-" if v is None else (hx(v) if v != "" else "-")
+
+
+def az_op(client, aud=None, scope="openid", nonce=NONCE, state="xyz", ch="none", method="GET", redirect=REDIRECT):
+    return "az %s %s %s %s %s %s %s %s" % (client, oh(aud), oh(scope), oh(nonce), oh(state), ch, method, oh(redirect))
+
+
+def gen_az(ctx):
+    rng = ctx.rng
+    ops = []
+    # the seeded class first: a client that may choose audiences asks for one
+    ops.append(az_op("publicAud", "https://api.localhost", ch="S256"))
+    ops.append(az_op("confidentialAud", "https://api.localhost"))
+    for cl, aud, ch in itertools.product(AZ_CLIENTS, AUDIENCES, ["none", "S256", "implicit"]):
+        ops.append(az_op(cl, aud, ch=ch))
+    for cl in AZ_CLIENTS:
+        ch = "S256" if cl.startswith("public") else "none"
+        aud = "https://api.localhost" if cl.endswith("Aud") else None
+        for sc in SCOPES:
+            ops.append(az_op(cl, aud, scope=sc, ch=ch))
+        for n in NONCES:
+            ops.append(az_op(cl, aud, nonce=n, ch=ch))
+        for st in STATES:
+            ops.append(az_op(cl, aud, state=st, ch=ch))
+        for c2 in CHALLENGES:
+            ops.append(az_op(cl, aud, ch=c2))
+        for rd in REDIRECTS:
+            ops.append(az_op(cl, aud, redirect=rd, ch=ch))
+        ops.append(az_op(cl, aud, method="POST", ch=ch))
+    ops.append(az_op("nobody"))
+    n = 250 if ctx.quick() else 6000
+    for _ in range(n):
+        ops.append(az_op(rng.choice(AZ_CLIENTS + ["publicAud", "confidentialAud"]), rng.choice(list(AUDIENCES)), rng.choice(SCOPES[:4] + SCOPES),
+                         rng.choice(NONCES[:3] + NONCES), rng.choice(STATES), rng.choice(["none", "S256", "S256", "implicit"] + list(CHALLENGES)),
+                         rng.choice(["GET", "POST"]), rng.choice([REDIRECT] * 6 + list(REDIRECTS))))
+    return ops
+
+
+def describe(o):
+    """an `az` op in words"""
+    f = o.split()
+    if f[0] != "az":
+        return o
+    return ("authorization request %s client_id=%s audience=%r scope=%r nonce=%r state=%r code_challenge=%s redirect_uri=%r, "
+            "then token request by that client" % (f[7], f[1], un(f[2]), un(f[3]), un(f[4]), un(f[5]), f[6], un(f[8])))
+
+
+def un(h):
+    return None if h == "-" else c.unhexs(h)
+
+
+def norm_code(wire):
+    """random / sealed material of a code is not comparable: keep only its presence"""
+    out = []
+    for p in wire.split(";"):
+        k = p.split("=")[0]
+        out.append(k + "=*" if k in ("jti", "protected_data", "protected_data_key") else p)
+    return ";".join(out)
+
 
 
 def gen_ops(ctx):
@@ -58,7 +138,7 @@ def drop(wire, keys):
 def run(ctx):
     facts = c.regen(ctx)
     c.prove(ctx)
-    ops = gen_ops(ctx)
+    ops = gen_az(ctx) + gen_ops(ctx)
     if ctx.replay:
         rp = json.load(open(ctx.replay))
         ops = [v["replay"]["op"] for v in rp.get("violations", []) if "op" in v.get("replay", {})] or ops[:100]
@@ -68,7 +148,42 @@ def run(ctx):
         return c.finish(ctx)
     mops, jops, meta, ui_ops, ui_expect = [], [], [], [], []
     hist = {}
+    az_ops, az_expect, rel_ops, rel_meta, late = [], [], [], [], []
+    az_hist = {}
     for o, line in zip(ops, impl):
+        truth = None
+        if o.startswith("az "):
+            f = o.split()
+            if not line.startswith("az "):
+                ctx.broken.append("harness answered %r for %r" % (line[:200], o))
+                continue
+            ahead, _, tokpart = line.partition(" || ")
+            ah = ahead.split()
+            akv = dict(x.split("=", 1) for x in ah[3:] if "=" in x)
+            client, aud, scope, nonce, state, redirect = f[1], un(f[2]), un(f[3]), un(f[4]), un(f[5]), un(f[8])
+            chal, meth = CHALLENGES[f[6]]
+            t = int(akv["tauth"])
+            if tokpart:
+                t = json.loads(bytes.fromhex(dict(x.split("=", 1) for x in tokpart.split() if "=" in x)["wire"]))["iat"]
+            az_ops.append("az %s %s %s %s %s %s %s %s %s %s %s %d %d %d" % (
+                hx(ISSUER), CLIENTS_ARG, hx(USER), hx("code"), hx(client), hx(scope or ""), hx(redirect or ""), hx(nonce or ""),
+                hx(aud or ""), hx(chal), hx(meth), REDIRECTS[redirect], AUDIENCES[aud] or 0, t))
+            if tokpart:
+                kvt = dict(x.split("=", 1) for x in tokpart.split() if "=" in x)
+                az_expect.append((o, "ok " + norm_code(flat_wire(kvt["wire"])[0])))
+                if (un(akv.get("state", "-")) or "") != (state or "") or un(akv.get("locbase", "-")) != redirect:
+                    c.add_violation(ctx, "authz-redirect", "authorization redirect went to %r with state %r (asked %r, %r)" % (
+                        un(akv.get("locbase", "-")), un(akv.get("state", "-")), redirect, state), {"op": o, "impl": line})
+            else:
+                az_expect.append((o, "rej " + ah[2]))
+            if "LEAK" in ahead:
+                c.add_violation(ctx, "code-in-refusal", "a refused authorization request carried a token", {"op": o, "impl": line})
+            hk = "az:%s" % (ah[2] if not tokpart else "code->" + tokpart.split()[1])
+            az_hist[hk] = az_hist.get(hk, 0) + 1
+            if not tokpart:
+                continue
+            line = tokpart
+            truth = {"client": client, "nonce": nonce or "", "scope": scope or "", "auds": [aud] if aud else [], "tauth": int(akv["tauth"])}
         if " | " not in line:
             ctx.broken.append("harness answered %r for %r" % (line[:200], o))
             continue
@@ -92,18 +207,27 @@ def run(ctx):
         jops.append(mop + (" acc" if cls == "released" else " rej"))
         meta.append((o, idec, kv, line, cls))
         f = o.split()
-        hk = "%s/%s:%s" % ("confidential" if f[1].startswith("conf") else "public", f[9], cls)
+        hk = "%s/%s:%s" % ("confidential" if f[1].startswith("conf") else "public", f[9] if truth is None else "az", cls)
         hist[hk] = hist.get(hk, 0) + 1
         if "LEAK" in rest:
             c.add_violation(ctx, "token-in-refusal", "a refused token request carried a token in its body", {"op": o, "impl": line})
         if cls == "released":
             # the released tokens, judged against the ground truth of the op (not against the model)
             f = o.split()
-            presenter = {"confidentialOne": {"same": "confidentialOne", "other": "confidentialTwo", "otherType": "publicOne"},
-                         "publicOne": {"same": "publicOne", "other": "publicTwo", "otherType": "confidentialOne"}}[f[1]].get(f[2], "?")
+            code = json.loads(bytes.fromhex(kv["wire"]))
+            if truth is None:
+                presenter = {"confidentialOne": {"same": "confidentialOne", "other": "confidentialTwo", "otherType": "publicOne"},
+                             "publicOne": {"same": "publicOne", "other": "publicTwo", "otherType": "confidentialOne"}}[f[1]].get(f[2], "?")
+                truth = {"client": presenter, "nonce": NONCE, "scope": "openid", "auds": [], "tauth": code.get("iat", 0)}
+            presenter = truth["client"]
             idt = json.loads(bytes.fromhex(kv["idt"]))
             acc = json.loads(bytes.fromhex(kv["acc"]))
-            code = json.loads(bytes.fromhex(kv["wire"]))
+            # the property's predicates (idTokenOK / accessTokenOK of the theorems), evaluated by the Lean judge
+            rel_ops.append("rel %s %s %s %s %s %s %d %s %s" % (
+                hx(ISSUER), hx(presenter), hx(USER), hx(truth["nonce"]), hx(truth["scope"]),
+                ",".join(hx(a) for a in truth["auds"]) or "-", truth["tauth"] + SIXTEEN_H + 1,
+                flat_wire(kv["idt"])[0], flat_wire(kv["acc"])[0]))
+            rel_meta.append((o, line, idt, acc))
             bad = []
             if idt.get("iss") != ISSUER:
                 bad.append("iss=%r" % idt.get("iss"))
@@ -111,7 +235,7 @@ def run(ctx):
                 bad.append("aud=%r presenter=%r" % (idt.get("aud"), presenter))
             if idt.get("sub") != USER:
                 bad.append("sub=%r" % idt.get("sub"))
-            if idt.get("nonce") != NONCE:
+            if idt.get("nonce", "") != truth["nonce"]:
                 bad.append("nonce=%r" % idt.get("nonce"))
             if not (idt.get("exp", 0) <= code.get("iat", 0) + SIXTEEN_H + 1):
                 bad.append("exp %r later than authorization %r + 16h" % (idt.get("exp"), code.get("iat")))
@@ -121,12 +245,16 @@ def run(ctx):
                 bad.append("userinfo(access token)=%r" % kv.get("ui"))
             if kv.get("uiid", "").startswith("ok") or kv.get("uicode", "").startswith("ok"):
                 bad.append("userinfo answered for an ID token / a code: %r %r" % (kv.get("uiid"), kv.get("uicode")))
+            want_aud = (truth["auds"] + [ISSUER + "/idp/oauth2/userinfo"]) if truth["auds"] else None
+            if acc.get("aud") != want_aud or acc.get("scope") != truth["scope"]:
+                bad.append("access token aud=%r scope=%r (authorized audience %r, scope %r)" % (
+                    acc.get("aud"), acc.get("scope"), truth["auds"], truth["scope"]))
             if acc.get("username") != USER or acc.get("type") != "bearer" or acc.get("exp") != idt.get("exp"):
                 bad.append("access token claims %r" % acc)
             if c.unhexs(kv.get("ttype", "-")) != "Bearer":
                 bad.append("token_type %r" % kv.get("ttype"))
             if bad:
-                c.add_violation(ctx, "released-token-claims", "released tokens are wrong: " + "; ".join(bad), {"op": o, "impl": line})
+                late.append(("released-token-claims", "released tokens are wrong for request %r: %s" % (o, "; ".join(bad)), {"op": o, "impl": line}))
             # the model's userinfo on the released access token
             ui_ops.append("ui %s %s 1:rsa RS256 1 RS256 %s" % (kv["now"], hx(ISSUER), flat_wire(kv["acc"])[0]))
             ui_expect.append("ok " + kv["ui"].split(":", 1)[1] if kv["ui"].startswith("ok:") else "rej")
@@ -141,6 +269,20 @@ def run(ctx):
     if ui_ops:
         um = c.run_driver(ctx, "model", ui_ops)
         c.diff_streams(ctx, "idpOpenIDCUserinfoHandler on released access tokens vs KM.Oidc.userinfo", ui_ops, ui_expect, um)
+    if az_ops:
+        azm = c.run_driver(ctx, "model", az_ops)
+        c.diff_streams(ctx, "idpOpenIDCAuthorizationHandler (optional parameters) vs KM.Oidc.authorize", [a[0] for a in az_expect],
+                       [a[1] for a in az_expect], [("ok " + norm_code(l[3:])) if l.startswith("ok ") else l for l in azm])
+    if rel_ops:
+        rv = c.run_driver(ctx, "judge", rel_ops)
+        for (o, line, idt, acc), v in zip(rel_meta, rv):
+            if v != "ok":
+                c.add_violation(ctx, "released:" + (v.split(" ", 1)[1] if " " in v else v),
+                                "released tokens violate the property: %s; %s -> id_token %s access_token %s" % (
+                                    v, describe(o), json.dumps(idt, sort_keys=True), json.dumps(acc, sort_keys=True)),
+                                {"op": o, "impl": line, "judge": v, "id_token": idt, "access_token": acc})
+    for k, what, rp in late:      # the script's own ground-truth comparison, after the Lean judge's verdicts
+        c.add_violation(ctx, k, what, rp)
     verdicts = c.run_driver(ctx, "judge", jops)
     for m, v in zip(meta, verdicts):
         if v != "ok":
@@ -148,13 +290,16 @@ def run(ctx):
                             {"op": m[0], "impl": m[3], "judge": v})
     released = [m for m in meta if m[4] == "released"]
     ctx.coverage.update({
-        "evaluations": len(meta),
+        "evaluations": len(meta) + sum(v for k, v in az_hist.items() if not k.startswith("az:code")),
         "distinct_nontrivial": len(set(m[0] for m in meta)),
         "rule": "every op is a distinct combination of (client the code was issued to, presenting client, secret, verifier, "
                 "sealed challenge method, redirect, code state, credential placement, code source); exhaustive over the grid of the "
                 "property in both tiers, thorough adds the wider grid (other presenters, foreign-signed codes, downgrade verifier)",
         "released": len(released), "refused": len(meta) - len(released),
         "outcome_histogram": dict(sorted(hist.items())),
+        "authorization_requests": len(az_ops), "authorization_histogram": dict(sorted(az_hist.items())),
+        "released_tokens_judged": len(rel_ops),
+        "released_with_audience": sum(1 for m in rel_meta if m[3].get("aud")),
         "userinfo_checked": len(ui_ops),
         "pkce_switch": facts.get("c12", {}).get("pkce_switch"),
         "samples": [{"op": m[0], "impl": m[1][:160]} for m in meta[:2] + released[:3]],
